@@ -34,6 +34,8 @@ def run(prog, R, tier="quick", only_rule=None):
     # Choice::Drop(ids) removes exactly those ids from the version (shared with C19.e)
     from rules.props import c19
     c19.c19e(prog, R, rid="C15.d")
+    # snapshots taken before keep their full view: readers pin one SuperVersion, also for the blob side of a scan
+    c02.c02d(prog, R, rid="C15.e")
 
 
 def c15a(prog, R):
